@@ -3,6 +3,9 @@ CONSTANT NCols = 1
 CONSTANT HSeeds = {0}
 CONSTANT NPat = 1
 CONSTANT Kinds = {"tm", "krum"}
+CONSTANT TSeeds = {}
+CONSTANT ManyM = {}
+CONSTANT ManySteps = 1
 SPECIFICATION TraceSpec
 INVARIANT TraceConsumed
 CHECK_DEADLOCK FALSE
